@@ -100,6 +100,7 @@ def run(ctx):
     r.count('wiring_sites', n)
     r.floor('wiring', 'wiring_sites', n, 5)
     complete_enumeration(ctx)
+    every_current_node_followed(ctx)
 
 
 SHORT = re.compile(r'Iterator::(find|find_map|take|take_while|next|nth|skip|skip_while|last|position|step_by|any|min|max|min_by|max_by|min_by_key|max_by_key)$|slice::(first|last)$|::first$|::last$')
@@ -132,3 +133,73 @@ def complete_enumeration(ctx, rule='complete-enumeration'):
             r.ok(rule, fn, 'References::%s filters / maps / collects every candidate reference (no short-circuiting adaptor)' % fn, loc=bodies[0].loc)
     r.count('enumeration_steps', n)
     r.floor(rule, 'enumeration_steps', n, 6)
+
+
+def every_current_node_followed(ctx, rule='every-node-followed'):
+    """find_nodes_relative_path: at each path element the step function is applied to EVERY node of the current set -
+    the traversal of matching_nodes.drain(..) is either a for_each, or a loop whose body has no exit other than the
+    exhaustion of the iterator; and follow_relative_path is what is applied, with the current element"""
+    r, db = ctx.r, ctx.db
+    FNP = 'server::address_space::relative_path::find_nodes_relative_path'
+    b = db.body(FNP)
+    if b is None:
+        r.lost(rule, 'find_nodes_relative_path', 'not found'); return
+    F = ctx.facts(b)
+    drains = [c for c in b.calls() if c.callee.endswith('Vec::drain') and 'matching_nodes' in fmt_sym(b, F.sym_operand(c.args[0])) and 'next_matching' not in fmt_sym(b, F.sym_operand(c.args[0]))]
+    if len(drains) != 1:
+        r.lost(rule, 'drain', 'traversal of the current node set (matching_nodes.drain(..)) not recognised'); return
+    fe = [c for c in b.calls() if c.callee.endswith('Iterator::for_each') and 'Vec::drain' in fmt_sym(b, F.sym_operand(c.args[0]))]
+    ok = None
+    if fe:
+        ok = 'matching_nodes.drain(..).for_each(..): every node of the level is visited'
+        bodies = db.find_bodies(r'^' + re.escape(FNP) + r'::\{closure#\d+\}$')
+    else:
+        # a loop: find the next() calls whose iterator derives from the drain
+        nexts = [c for c in b.calls() if c.callee.endswith('Iterator::next')]
+        bad = None; found = False
+        for c in nexts:
+            it = F.sym_operand(c.args[0])
+            loc_ = it
+            while loc_[0] in ('ref', 'deref'):
+                loc_ = loc_[1]
+            if loc_[0] != 'place':
+                continue
+            defs = b.defs().get(loc_[1], [])
+            if not any(d[0] == 'call' and d[2].callee.endswith('into_iter') and 'Vec::drain' in fmt_sym(b, F.sym_operand(d[2].args[0])) for d in defs):
+                continue
+            found = True
+            # loop body: from the Some edge of the switch that follows next(), stopping at the next() block
+            sw = c.target
+            some_dst = None
+            t = b.term(sw) if sw is not None else None
+            if t is not None and t[0] == 'switch':
+                for dst, lab in b.succ_edges(sw):
+                    lits = F.edge_literals(sw, lab)
+                    if any(l[0] == 'variant' and l[2] == 'Some' and l[3] for l in lits):
+                        some_dst = dst
+            if some_dst is None:
+                bad = 'loop shape not recognised'; break
+            body = b.reachable_blocks(some_dst, stop={c.bb})
+            body.discard(c.bb)
+            exits = []
+            for x in body:
+                if b.is_cleanup(x):
+                    continue
+                for s_ in b.succ(x):
+                    if s_ not in body and s_ != c.bb and not b.is_cleanup(s_):
+                        exits.append((x, s_))
+            if exits:
+                bad = 'the loop over the current node set can be left before the iterator is exhausted (%d exit edge(s), e.g. bb%d -> bb%d)' % (len(exits), exits[0][0], exits[0][1])
+        if not found:
+            r.lost(rule, 'traversal', 'neither for_each nor a loop over matching_nodes.drain(..) found'); return
+        if bad:
+            r.fail(rule, 'traversal', 'find_nodes_relative_path does not follow every node of the current level: %s - targets reachable through the remaining nodes are lost' % bad, loc=b.loc)
+            return
+        ok = 'the loop over matching_nodes.drain(..) only ends when the iterator is exhausted'
+        bodies = [b]
+    # the step applied is follow_relative_path(address_space, node, element)
+    step = [c for bb_ in bodies for c in bb_.calls() if c.callee.endswith('relative_path::follow_relative_path')]
+    if len(step) == 1:
+        r.ok(rule, 'traversal', ok + '; each node is followed with follow_relative_path', loc=b.loc)
+    else:
+        r.fail(rule, 'traversal', 'the per-node step is not a single call of follow_relative_path (found %d)' % len(step), loc=b.loc)
